@@ -287,6 +287,7 @@ func init() {
 			})
 			callableRules(c)
 			packageCall(c)
+			c.errPolarity("Call")
 			out := c.sel(func(o *an.Oblig) bool { return isUndecided(o) || o.Rule == "ANCHOR" })
 			return append(out, c.C.List...)
 		},
